@@ -58,7 +58,7 @@ func allKeys() []string {
 //
 //	seek:   keys of SeekGE / SeekLT / SeekPrefixGE
 //	lim:    limits of NextWithLimit / PrevWithLimit
-//	pairs:  "all" = every (key, limit) pair of seek x lim for Seek{GE,LT}WithLimit,
+//	pairs:  "all" = every (key, limit) pair of probes x lim for Seek{GE,LT}WithLimit,
 //	        "ordered" = pairs with the limit beyond the key in the direction of the call,
 //	        "few" = two pairs per direction
 //	nb:     number of bound pairs used by SetBounds
@@ -95,25 +95,25 @@ func alphabet(seek, seekLT, lim []string, pairs string, nb int, setopt int) []Ca
 	less := func(x, y string) bool { return cmpKeys([]byte(x), []byte(y)) < 0 }
 	switch pairs {
 	case "all":
-		for _, k := range seek {
+		for _, k := range probes {
 			for _, l := range lim {
 				a = append(a, Call{Op: "SeekGEWithLimit", K: k, L: l})
 			}
 		}
-		for _, k := range seek {
+		for _, k := range probes {
 			for _, l := range lim {
 				a = append(a, Call{Op: "SeekLTWithLimit", K: k, L: l})
 			}
 		}
 	case "ordered":
-		for _, k := range seek {
+		for _, k := range probes {
 			for _, l := range lim {
 				if less(k, l) {
 					a = append(a, Call{Op: "SeekGEWithLimit", K: k, L: l})
 				}
 			}
 		}
-		for _, k := range seek {
+		for _, k := range probes {
 			for _, l := range lim {
 				if less(l, k) {
 					a = append(a, Call{Op: "SeekLTWithLimit", K: k, L: l})
@@ -131,19 +131,29 @@ func alphabet(seek, seekLT, lim []string, pairs string, nb int, setopt int) []Ca
 }
 
 type plan struct {
-	name  string
-	alpha []Call
-	depth int
+	name    string
+	alpha   []Call
+	depth   int
+	nStates int // the plan runs on the first nStates states (hand-built first, then the picked histories)
 }
 
+// Number of picked write histories (each is built under both configurations) per tier.
+const (
+	quickHistories    = 12
+	thoroughHistories = 48
+)
+
 func plans(thorough bool) []plan {
+	nHand := len(handShapes) * len(stateConfigs)
+	d3 := alphabet(probes, probes, probes, "ordered", 4, 3)
 	if !thorough {
-		return []plan{{"d3", alphabet(probes, probes, probes, "ordered", 4, 3), 3}}
+		return []plan{{"d3", d3, 3, nHand + 2*quickHistories}}
 	}
 	wide := append(append([]string{}, probes...), probesExtra...)
 	return []plan{
-		{"d3-wide", alphabet(wide, wide, probes, "all", 4, 3), 3},
-		{"d4-core", alphabet(probes, []string{"a@2", "b@2", "c"}, []string{"a@2", "b@2"}, "few", 2, 1), 4},
+		{"d3", d3, 3, nHand + 2*thoroughHistories},
+		{"d3-wide", alphabet(wide, wide, probes, "all", 4, 3), 3, nHand + 2*quickHistories},
+		{"d4-core", alphabet(probes, []string{"a@2", "b@2", "c"}, []string{"a@2", "b@2"}, "few", 2, 1), 4, nHand + 2*28},
 	}
 }
 
@@ -601,14 +611,20 @@ func TestCheck(t *testing.T) {
 		}
 
 		// ---- states
-		nStates := 32
+		nPick := quickHistories
 		if c.Thorough() {
-			nStates = 112
+			nPick = thoroughHistories
 		}
-		specs, nHist, nDistinct, nClasses := discoverStates(c, nStates)
-		for _, cfg := range stateConfigs {
-			for _, h := range handShapes {
+		picked, nHist, nDistinct, nClasses := discoverStates(c, nPick)
+		var specs []StateSpec
+		for _, h := range handShapes {
+			for _, cfg := range stateConfigs {
 				specs = append(specs, StateSpec{Name: cfg.Name + "/hand/" + h.name, Cfg: cfg, Hist: h.ops})
+			}
+		}
+		for _, p := range picked {
+			for _, cfg := range stateConfigs {
+				specs = append(specs, StateSpec{Name: cfg.Name + "/" + p.Name, Cfg: cfg, Hist: p.Hist})
 			}
 		}
 		states := make([]*stateRT, len(specs))
@@ -657,13 +673,17 @@ func TestCheck(t *testing.T) {
 					first = append(first, i)
 				}
 			}
-			nItems := len(states) * len(initialBounds) * len(first)
+			pst := states
+			if p.nStates < len(pst) {
+				pst = pst[:p.nStates]
+			}
+			nItems := len(pst) * len(initialBounds) * len(first)
 			var planSeqs atomic.Int64
 			done, complete := c.Each(nItems, func(i int) {
 				// the state varies fastest so that concurrent workers use different DBs
-				sid := i % len(states)
-				bi := (i / len(states)) % len(initialBounds)
-				fi := i / (len(states) * len(initialBounds))
+				sid := i % len(pst)
+				bi := (i / len(pst)) % len(initialBounds)
+				fi := i / (len(pst) * len(initialBounds))
 				lc := &local{states: map[uint64]struct{}{}, nontriv: map[uint64]struct{}{}}
 				e := &explorer{c: c, t: kt, st: states[sid], sid: sid, bi: bi,
 					lo: kt.r(initialBounds[bi][0]), hi: kt.r(initialBounds[bi][1]),
@@ -701,8 +721,8 @@ func TestCheck(t *testing.T) {
 					stop.Store(true)
 				}
 			})
-			planNotes = append(planNotes, fmt.Sprintf("%s: alphabet %d (%d usable as first call), depth %d: %d of %d (state, bounds, first call) items, %d full-depth sequences",
-				p.name, len(alpha), len(first), p.depth, done, nItems, planSeqs.Load()))
+			planNotes = append(planNotes, fmt.Sprintf("%s: first %d states, alphabet %d (%d usable as first call), depth %d: %d of %d (state, bounds, first call) items, %d full-depth sequences",
+				p.name, len(pst), len(alpha), len(first), p.depth, done, nItems, planSeqs.Load()))
 			if !complete {
 				c.Incomplete(fmt.Sprintf("budget expired in plan %s after %d of %d (state, bounds, first call) items; every earlier plan is complete", p.name, done, nItems))
 				break
@@ -720,8 +740,8 @@ func TestCheck(t *testing.T) {
 		}
 		sort.Strings(stateNames)
 		c.Note("plans", planNotes)
-		c.Note("states", fmt.Sprintf("%d LSM states (%d with an invisible internal key) = %d picked from %d distinct (visible state, LSM shape, memtable) signatures in %d shape classes reached by %d write histories + %d hand-built; x %d initial bound pairs",
-			len(states), nInv, len(states)-len(handShapes)*len(stateConfigs), nDistinct, nClasses, nHist, len(handShapes)*len(stateConfigs), len(initialBounds)))
+		c.Note("states", fmt.Sprintf("%d LSM states (%d with an invisible internal key) = (%d hand-built + %d write histories picked from %d distinct (visible state, LSM shape, memtable) signatures in %d shape classes reached by %d enumerated histories) x %d DB configurations; x %d initial bound pairs",
+			len(states), nInv, len(handShapes), len(picked), nDistinct, nClasses, nHist, len(stateConfigs), len(initialBounds)))
 		c.Note("state_list", stateNames)
 		c.Note("scope", fmt.Sprintf("%d full-depth call sequences, %d iterator calls, every call compared with the model", totalSeqs, totalCalls))
 	})
